@@ -37,6 +37,7 @@ func verifyFunc(prog *ssa.Program, specs *SpecDB, fn *ssa.Function, opts verifyO
 	e := newEnc(prog, specs)
 	e.curFunc = funcFull(fn)
 	e.nopanic = opts.nopanic
+	e.property = opts.property
 	e.lockDiscipline = opts.lockDiscipline
 	e.callPolicy = opts.callPolicy
 	if opts.lockOnly {
@@ -167,8 +168,23 @@ func verifyFunc(prog *ssa.Program, specs *SpecDB, fn *ssa.Function, opts verifyO
 		f.oblige("vacuity", funcDisplay(fn)+":requires-satisfiable", "true", "false", "requires clauses are jointly satisfiable", nil, token.NoPos)
 		e.obls[len(e.obls)-1].Expect = "notunsat"
 	}
+	if sp != nil {
+		for _, cs := range sp.CallSites {
+			cs.Seen = false
+		}
+	}
 	f.run(st, "true", args)
 	fname := funcDisplay(fn)
+	if sp != nil {
+		for _, cs := range sp.CallSites {
+			if !cs.Seen && (opts.property == "" || hasTag(cs.Clause.Tags, opts.property)) {
+				rep.Status = "tool-error"
+				rep.Err = "the contract constrains the calls to " + cs.Callee + ", but the body makes no such call: " + cs.Clause.Src
+				rep.Obls = nil
+				return rep
+			}
+		}
+	}
 	if sp != nil {
 		rep.Status = "verified-against-contract"
 		if sp.Assumed {
